@@ -314,7 +314,18 @@ func Run(c *common.Ctx) error {
 			return err
 		}
 	}
+	for i := 0; i < 2; i++ {
+		if err := walAfterDemotion(c, cfH, c.Rng.Fork(), i); err != nil {
+			return err
+		}
+	}
 	if err := haltGrantNotReached(c, c.Rng.Fork()); err != nil {
+		return err
+	}
+	if err := haltLockAcrossFailover(c, c.Rng.Fork()); err != nil {
+		return err
+	}
+	if err := importInFlightAtDemotion(c, c.Rng.Fork()); err != nil {
 		return err
 	}
 	for i := 0; i < c.Pick(2, 6); i++ {
@@ -1063,6 +1074,257 @@ func haltGrantNotReached(c *common.Ctx, r *common.Rand) error {
 	}
 	if id := p.Store.DB("db").VerifHaltLockID(); id != 0 {
 		c.Violate(key+":primary-halted", fmt.Sprintf("the request failed on the replica and the primary still holds halt lock %d", id), rep)
+	}
+	return nil
+}
+
+// walAfterDemotion: a WAL-mode primary has committed transactions that live in the log only; it is demoted. Until the
+// role-change recovery runs (after the demotion delay) the log is part of the database. An application that removes or
+// truncates the log through the mount is refused with the read-only error and the image stays what it was.
+func walAfterDemotion(c *common.Ctx, cfH *common.CaseFile, r *common.Rand, idx int) error {
+	dir, err := os.MkdirTemp(c.OutDir, "c07w-")
+	if err != nil {
+		return err
+	}
+	defer os.RemoveAll(dir)
+	clu := cluster.New(dir, 2*time.Second)
+	defer clu.Close()
+	clu.Opts = func(name string, s *litefs.Store) { s.DemoteDelay = 3 * time.Second }
+	p, err := clu.Start("p", true)
+	if err != nil {
+		return err
+	}
+	if clu.WaitPrimary(5*time.Second) == nil {
+		return fmt.Errorf("no primary")
+	}
+	h := hist.NewOn(c, r.Fork(), hist.Config{PageSize: 512, AllowWAL: true, ForceWAL: true}, p.Store, p.Exits, "db", nil, 0, false)
+	if err := commitN(h, 3, true); err != nil {
+		return err
+	}
+	if fi, err := os.Stat(p.Store.DB("db").WALPath()); err != nil || fi.Size() <= 32 {
+		return fmt.Errorf("setup: no frames in the log")
+	}
+	p.Store.Demote()
+	deadline := time.Now().Add(2 * time.Second)
+	for p.Store.IsPrimary() && time.Now().Before(deadline) {
+		time.Sleep(time.Millisecond)
+	}
+	if p.Store.IsPrimary() || p.Store.DB("db").Writeable() {
+		c.Count("wal_after_demotion_not_effective", 1)
+		return nil
+	}
+	m := newMount(filepath.Join(dir, "mnt-p"), p.Store)
+	handler := []string{"HRemoveWAL", "HTruncateWAL"}[idx%2]
+	before := snapshot(p, "db")
+	errno, _ := m.exec(handlerOp{Handler: handler, DB: "db", Locks: "none"}, 901, 512, nil)
+	after := snapshot(p, "db")
+	c.Evaluations++
+	c.Distinct("wal-after-demotion:" + handler)
+	rep := map[string]any{"kind": "readonly-wal-after-demotion", "handler": handler, "errno": errno}
+	if before != after {
+		c.Violate("C07:wal-after-demotion:"+handler+":changed", fmt.Sprintf("%s on a demoted primary (no write authority, log not yet recovered) answered errno %d and changed the database: %+v -> %+v", handler, errno, before, after), rep)
+		return nil
+	}
+	if errno != int(syscall.EACCES) {
+		c.Violate("C07:wal-after-demotion:"+handler+":errno", fmt.Sprintf("%s on a demoted primary answered errno %d, want the read-only permission error EACCES (13)", handler, errno), rep)
+	}
+	cfH.Add(fmt.Sprintf("(%s, false, false, false, true, %d)", handler, acode(errno)), rep)
+	return nil
+}
+
+// haltLockAcrossFailover: a replica holds the halt lock of primary P; P dies; another node - which had missed P's last
+// transaction and commits one of its own - becomes primary and sends the former holder a snapshot, because the positions
+// do not match. The lock died with P: after the snapshot the former holder has no write authority, whatever the
+// snapshot's transaction ids are relative to the position the lock was granted at.
+func haltLockAcrossFailover(c *common.Ctx, r *common.Rand) error {
+	dir, err := os.MkdirTemp(c.OutDir, "c07f-")
+	if err != nil {
+		return err
+	}
+	defer os.RemoveAll(dir)
+	clu := cluster.New(dir, 2*time.Second)
+	clu.Opts = func(name string, s *litefs.Store) {
+		s.HaltAcquireTimeout = 2 * time.Second
+		s.HaltLockTTL = 5 * time.Minute
+	}
+	defer clu.Close()
+	p, err := clu.Start("p", true)
+	if err != nil {
+		return err
+	}
+	if clu.WaitPrimary(5*time.Second) == nil {
+		return fmt.Errorf("no primary")
+	}
+	q, err := clu.Start("q", false) // follows only, for now
+	if err != nil {
+		return err
+	}
+	rn, err := clu.Start("r", false)
+	if err != nil {
+		return err
+	}
+	const ps = 512
+	hp := hist.NewOn(c, r.Fork(), hist.Config{PageSize: ps}, p.Store, p.Exits, "db", nil, 0, false)
+	if err := commitN(hp, 2, false); err != nil {
+		return err
+	}
+	at := p.Store.DB("db").Pos()
+	for _, n := range []*cluster.Node{q, rn} {
+		if !cluster.WaitPos(n, "db", uint64(at.TXID), uint64(at.PostApplyChecksum), 10*time.Second) {
+			return fmt.Errorf("%s did not catch up", n.Name)
+		}
+	}
+	q.Stop() // q misses the next transaction
+	if err := commitN(hp, 1, false); err != nil {
+		return err
+	}
+	at = p.Store.DB("db").Pos()
+	if !cluster.WaitPos(rn, "db", uint64(at.TXID), uint64(at.PostApplyChecksum), 10*time.Second) {
+		return fmt.Errorf("r did not catch up")
+	}
+	rdb := rn.Store.DB("db")
+	hl, err := rdb.AcquireRemoteHaltLock(context.Background(), 81)
+	if err != nil {
+		return fmt.Errorf("halt: %v", err)
+	}
+	p.Stop() // the primary dies, and the lock with it
+	if q, err = clu.Start("q", true); err != nil {
+		return err
+	}
+	deadline := time.Now().Add(8 * time.Second)
+	for !q.Store.IsPrimary() && time.Now().Before(deadline) {
+		time.Sleep(5 * time.Millisecond)
+	}
+	if !q.Store.IsPrimary() {
+		c.Count("failover_no_new_primary", 1)
+		return nil
+	}
+	qim, _ := lfs.ReadImage(filepath.Join(q.Dir, "dbs", "db"))
+	hq := hist.NewOn(c, r.Fork(), hist.Config{PageSize: ps}, q.Store, q.Exits, "db", qim, uint64(q.Store.DB("db").Pos().TXID), false)
+	if err := commitN(hq, 1, false); err != nil { // its own transaction with the id of the one it missed
+		return err
+	}
+	want := q.Store.DB("db").Pos()
+	c.Evaluations++
+	c.Distinct("halt-lock-across-failover")
+	rep := map[string]any{"kind": "readonly-halt-failover", "lock_granted_at": fmt.Sprint(hl.Pos), "new_primary_at": fmt.Sprint(want)}
+	if !cluster.WaitPos(rn, "db", uint64(want.TXID), uint64(want.PostApplyChecksum), 8*time.Second) {
+		c.Count("failover_holder_did_not_follow", 1)
+		return nil
+	}
+	time.Sleep(30 * time.Millisecond)
+	if rdb.HasRemoteHaltLock() || rdb.Writeable() {
+		c.Violate("C07:halt-failover:still-writeable", fmt.Sprintf("the node held the halt lock of a primary that died (granted at %s); the new primary replaced its database by a snapshot (now at %s), and it still counts as holder of that lock (has lock: %v, writeable: %v)", hl.Pos, rdb.Pos(), rdb.HasRemoteHaltLock(), rdb.Writeable()), rep)
+		return nil
+	}
+	// and the mount refuses its writes
+	m := newMount(filepath.Join(dir, "mnt-r"), rn.Store)
+	before := snapshot(rn, "db")
+	for _, hnd := range []string{"HCreateJournal", "HWriteDB"} {
+		op := handlerOp{Handler: hnd, DB: "db", Locks: "none", Arg: 1}
+		errno, _ := m.exec(op, 931, ps, lfs.MakePage(ps, 1, r.U64(), before.pageN, false))
+		after := snapshot(rn, "db")
+		c.Evaluations++
+		if errno == 0 || before != after {
+			c.Violate("C07:halt-failover:"+hnd, fmt.Sprintf("%s on the former holder answered errno %d; database %+v -> %+v", hnd, errno, before, after), rep)
+			return nil
+		}
+	}
+	return nil
+}
+
+// gatedReader delivers the first half of its bytes, then waits until it is let go.
+type gatedReader struct {
+	b       []byte
+	off     int
+	reached chan struct{}
+	goOn    chan struct{}
+	once    bool
+}
+
+func (g *gatedReader) Read(p []byte) (int, error) {
+	if g.off >= len(g.b)/2 && !g.once {
+		g.once = true
+		close(g.reached)
+		select {
+		case <-g.goOn:
+		case <-time.After(10 * time.Second):
+		}
+	}
+	if g.off >= len(g.b) {
+		return 0, io.EOF
+	}
+	n := copy(p, g.b[g.off:min(len(g.b), g.off+256)])
+	g.off += n
+	return n, nil
+}
+
+// importInFlightAtDemotion: an import is reading its (slow) upload when the node loses the primary role. What it
+// publishes it would publish on a node without write authority: the import fails, position and log stay what they were.
+func importInFlightAtDemotion(c *common.Ctx, r *common.Rand) error {
+	dir, err := os.MkdirTemp(c.OutDir, "c07i-")
+	if err != nil {
+		return err
+	}
+	defer os.RemoveAll(dir)
+	clu := cluster.New(dir, 2*time.Second)
+	defer clu.Close()
+	clu.Opts = func(name string, s *litefs.Store) { s.DemoteDelay = 1500 * time.Millisecond }
+	p, err := clu.Start("p", true)
+	if err != nil {
+		return err
+	}
+	if clu.WaitPrimary(5*time.Second) == nil {
+		return fmt.Errorf("no primary")
+	}
+	const ps = 512
+	h := hist.NewOn(c, r.Fork(), hist.Config{PageSize: ps}, p.Store, p.Exits, "db", nil, 0, false)
+	if err := commitN(h, 2, false); err != nil {
+		return err
+	}
+	db := p.Store.DB("db")
+	var img []byte
+	for pg := uint32(1); pg <= 6; pg++ {
+		img = append(img, lfs.MakePage(ps, pg, 430000+uint64(pg), 6, false)...)
+	}
+	gr := &gatedReader{b: img, reached: make(chan struct{}), goOn: make(chan struct{})}
+	before := snapshot(p, "db")
+	done := make(chan error, 1)
+	go func() { done <- db.Import(p.Store.PrimaryCtx(ctx), gr) }()
+	select {
+	case <-gr.reached:
+	case <-time.After(5 * time.Second):
+		close(gr.goOn)
+		c.Count("import_in_flight_not_reached", 1)
+		return nil
+	}
+	p.Store.Demote()
+	deadline := time.Now().Add(2 * time.Second)
+	for p.Store.IsPrimary() && time.Now().Before(deadline) {
+		time.Sleep(time.Millisecond)
+	}
+	lost := !p.Store.IsPrimary()
+	close(gr.goOn)
+	var ierr error
+	select {
+	case ierr = <-done:
+	case <-time.After(8 * time.Second):
+		ierr = fmt.Errorf("the import did not return within 8 s")
+	}
+	c.Evaluations++
+	c.Distinct("import-in-flight-at-demotion")
+	if !lost {
+		c.Count("import_in_flight_demotion_not_effective", 1)
+		return nil
+	}
+	after := snapshot(p, "db")
+	rep := map[string]any{"kind": "readonly-import-in-flight", "import_error": fmt.Sprint(ierr)}
+	if after.txid != before.txid || after.chk != before.chk || after.ltx != before.ltx || after.hash != before.hash {
+		c.Violate("C07:import-in-flight:published", fmt.Sprintf("the node lost the primary role while an import was reading its upload; the import answered %v and the database went from %+v to %+v", ierr, before, after), rep)
+		return nil
+	}
+	if ierr == nil {
+		c.Violate("C07:import-in-flight:accepted", "an import that finished on a node that had lost the primary role reported success", rep)
 	}
 	return nil
 }
